@@ -28,7 +28,7 @@ impl Property for C11 {
         vec!["K is measured per (goal, solver) on a fresh solver; schedules beyond the cap of 48 callbacks are sampled only by 'always false'".into()]
     }
     fn cases_per_shard(&self, tier: Tier) -> u32 {
-        tier.pick(25, 600)
+        tier.pick(150, 2000)
     }
     fn decode(&self, t: &mut Tape, _tier: Tier) -> PG {
         let cfg = if t.chance(40) { GenCfg::horn_auto() } else { GenCfg::horn() };
